@@ -270,7 +270,7 @@ func cmdCheck(o opts, prop, tier string) int {
 			continue
 		}
 		for _, ob := range sel {
-			if ob.ID == k.Obligation || stripOrdinal(ob.ID) == k.Obligation {
+			if ob.ID == k.Obligation || stripOrdinal(ob.ID) == k.Obligation || strings.HasPrefix(ob.ID, k.Obligation+"@") {
 				ob.NoRetry = true
 			}
 		}
